@@ -98,24 +98,26 @@ def case_line(kind, src, halt_at, fuel, lines, cmds, vars_, text):
 
 
 # ---- random programs ---------------------------------------------------------------------------
-def rand_result(rng, n_lines, allow_halt=False):
+def rand_result(rng, n_lines, allow_halt=False, calm=False):
+    """calm: mostly results that keep the run going (long runs); otherwise every kind is likely"""
     r = rng.random()
-    if r < 0.30:
+    cuts = (0.46, 0.58, 0.70, 0.74, 0.96) if calm else (0.30, 0.42, 0.54, 0.64, 0.88)
+    if r < cuts[0]:
         res = ("C", rng.choice(VALUES))
-    elif r < 0.42:
-        res = ("L", rng.choice(VALUES[:3]), rng.choice(LABELS if rng.random() < 0.85 else UNDEF_LABELS))
-    elif r < 0.54:
+    elif r < cuts[1]:
+        res = ("L", rng.choice(VALUES[:3]), rng.choice(LABELS if rng.random() < (0.97 if calm else 0.85) else UNDEF_LABELS))
+    elif r < cuts[2]:
         t = rng.random()
-        if t < 0.7:
+        if t < (0.92 if calm else 0.7):
             n = rng.randint(0, max(0, n_lines - 1))
-        elif t < 0.85:
+        elif t < 0.97:
             n = n_lines + rng.randint(0, 2)
         else:
             n = rng.choice([1000, 5000, 77])
         res = ("J", rng.choice(VALUES[:3]), n)
-    elif r < 0.64:
+    elif r < cuts[3]:
         res = ("X", rng.choice(EXIT_VALUES))
-    elif r < 0.88:
+    elif r < cuts[4]:
         res = ("E", rng.choice(MSGS))
     else:
         res = ("K", rng.choice(MSGS))
@@ -125,7 +127,11 @@ def rand_result(rng, n_lines, allow_halt=False):
 
 
 def rand_program(rng, max_lines=14, allow_halt=False, cyclic_p=0.15):
-    n = rng.randint(0, max_lines) if rng.random() < 0.9 else rng.randint(0, 3)
+    calm = rng.random() < 0.7
+    if calm:
+        n = rng.randint(min(4, max_lines), max_lines)
+    else:
+        n = rng.randint(0, max_lines) if rng.random() < 0.9 else rng.randint(0, 3)
     ncmd = rng.randint(1, 4)
     names = ["c%d" % i for i in range(ncmd)]
     lines = []
@@ -147,7 +153,7 @@ def rand_program(rng, max_lines=14, allow_halt=False, cyclic_p=0.15):
         else:
             if rng.random() < 0.55:
                 l["out"] = rng.choice(OUTS)
-            l["cmd"] = rng.choice(names) if rng.random() < 0.95 else rng.choice(["nope", "c9"])
+            l["cmd"] = rng.choice(names) if rng.random() < (0.99 if calm else 0.95) else rng.choice(["nope", "c9"])
             l["args"] = [rng.choice(ARGS) for _ in range(rng.choice([0, 0, 1, 1, 2, 3]))]
         if not l:
             lines.append(None)
@@ -155,14 +161,24 @@ def rand_program(rng, max_lines=14, allow_halt=False, cyclic_p=0.15):
         else:
             lines.append(l)
     cmds = {}
+    present = sorted({l["label"] for l in lines if l and l.get("label")})
+
+    def fix(r):
+        # calm programs jump to labels that exist (mostly)
+        if calm and r[0] == "L" and r[2] in LABELS and r[2] not in present and rng.random() < 0.9:
+            return ("L", r[1], rng.choice(present)) if present else ("C", r[1])
+        if r[0] == "!":
+            return ("!", fix(r[1]))
+        return r
     for nm in names:
         cyc = rng.random() < cyclic_p
-        cmds[nm] = (cyc, [rand_result(rng, n, allow_halt) for _ in range(rng.randint(0 if not cyc else 1, 6))])
+        nres = rng.randint(3, 10) if calm else rng.randint(0 if not cyc else 1, 6)
+        cmds[nm] = (cyc, [fix(rand_result(rng, n, allow_halt, calm)) for _ in range(nres)])
     if rng.random() < 0.5:
         hr = []
-        for _ in range(rng.randint(0, 4)):
+        for _ in range(rng.randint(2, 8) if calm else rng.randint(0, 4)):
             t = rng.random()
-            if t < 0.6:
+            if t < (0.9 if calm else 0.6):
                 hr.append(("C", rng.choice(VALUES)))
             elif t < 0.72:
                 hr.append(("X", rng.choice(EXIT_VALUES[:4])))
